@@ -89,6 +89,14 @@ claim("C17", "sched",
       "in-memory append-only file object (trusted fake) in quick plus a few real temp files; thorough adds byte-level chunkings of real files with a two-byte UTF-8 character; fake directory behind the glob seam; text length <= 6 (quick) / 8 (thorough)",
       "DESIGN.md §3 C17")
 
+claim("C09", "sched",
+      "bounded exhaustive schedule enumeration with a crash at every choice point, real from_kafka_batched against an in-memory broker",
+      "Production histories over 1-2 partitions (incl. a partition added with refresh_partitions, pre-existing committed offsets, reset earliest/latest, max_batch_size 1/2/10), "
+      "synchronous / buffered / directly connected asynchronous consumers completing in any order; every step: auto-commit off, ranges contiguous, non-overlapping, start at committed/reset position, "
+      "<= watermark, <= max_batch_size, commit(o) only for a completely processed batch ending at o-1; after the crash a second life with the same group must redeliver everything not completely processed.",
+      "trusted fake broker (commits durable when requested); <=4 messages; deviations <=1; redelivery demanded only when the group has a position and batches completed in order (as the statement allows)",
+      "DESIGN.md §3 C09")
+
 ALL = ["C%02d" % i for i in range(1, 21)]
 
 
